@@ -5,6 +5,9 @@ package all
 import (
 	"verifharness/hx"
 	"verifharness/mods/mt"
+	"verifharness/mods/nft"
+	"verifharness/mods/random"
+	"verifharness/mods/record"
 )
 
 // Entry is one module scenario.
@@ -17,6 +20,9 @@ type Entry struct {
 func Entries() []Entry {
 	return []Entry{
 		{"mt", func(e *hx.Env) hx.Runner { return mt.New(e) }},
+		{"nft", func(e *hx.Env) hx.Runner { return nft.New(e) }},
+		{"random", func(e *hx.Env) hx.Runner { return random.New(e) }},
+		{"record", func(e *hx.Env) hx.Runner { return record.New(e) }},
 	}
 }
 
